@@ -102,4 +102,24 @@ let () =
         let m = state_string ocs s in
         if m = obs then Printf.printf "OK %s\n" id
         else Printf.printf "MISMATCH %s model=%s\n" id m
+      | ["M"; id; pat; obs] ->
+        (* MoovBox.AddChild of a trak on a moov whose children are given by pat (h mvhd, x mvex, t trak) *)
+        let dummy i = { tk_id = n_of_int i; tk_volume = N0; tk_width = N0; tk_height = N0; md_timescale = N0; md_lang = N0;
+                        hd_type = []; hd_name = []; el_lang = None; mi_hdr = Nmhd; sd_entries = [] } in
+        let nt = ref 0 in
+        let ch = L.map (fun c -> match c with
+            | 'h' -> MCmvhd | 'x' -> MCmvex
+            | _ -> let i = !nt in incr nt; MCtrak (nat_of_int i)) (L.init (S.length pat) (S.get pat)) in
+        let s0 = { children = ch; traks = L.init !nt dummy; trexs = []; next_id = N0 } in
+        let s1 = moov_add_trak s0 (dummy !nt) in
+        let m = S.concat "" (L.map (function MCmvhd -> "h" | MCmvex -> "x"
+                                             | MCtrak i -> if int_of_nat i = !nt then "N" else "t") s1.children) in
+        if m = obs && L.length s1.traks = !nt + 1 then Printf.printf "OK %s\n" id
+        else Printf.printf "MISMATCH %s model=%s\n" id m
+      | ["L"; id; lang; obs] ->
+        let m = match elng_decode (elng_payload (str_of_hex lang)) with
+          | Base.Ok (missing, l) -> (if missing then "1" else "0") ^ "/" ^ hex_of_str l
+          | _ -> "ERR" in
+        if m = obs then Printf.printf "OK %s\n" id
+        else Printf.printf "MISMATCH %s model=%s\n" id m
       | _ -> Printf.printf "BADLINE %s\n" line)
